@@ -133,7 +133,7 @@ def guard_blocks(ix, body, kind, protect):
         # the abort edge must not reach a protected block
         bad = False
         for a in abort_targets:
-            reach = body.reachable_from(a, include_start=True)
+            reach = body.reachable_from(a, removed={blk.idx}, include_start=True)
             if reach & protect:
                 bad = True
         if not bad:
